@@ -218,25 +218,45 @@ theorem spec_readName_escName (n d : List Nat) (hb : NameBytes n = true)
 
 /-! ### literal strings -/
 
-/-- `escape_pdf_string_bytes` + the independent reader: exact for every byte string without CR -/
-theorem spec_readLit_escape (s rest : List Nat) (hs : NoCR s = true) :
+/-- `escape_pdf_string_bytes` + the independent reader: exact for **every** byte string -/
+theorem spec_readLit_escape (s rest : List Nat) :
     Syntax.readLit 0 .normal (escapePdfString s ++ 41 :: rest) = some (s, rest) := by
   induction s with
   | nil => simp [escapePdfString, Syntax.readLit]
+  | cons x xs ih =>
+    by_cases h92 : x = 92
+    · subst h92
+      simp [escapePdfString, Syntax.readLit, Syntax.consOut, Syntax.isOctal, ih]
+    · by_cases h40 : x = 40
+      · subst h40
+        simp [escapePdfString, Syntax.readLit, Syntax.consOut, Syntax.isOctal, ih]
+      · by_cases h41 : x = 41
+        · subst h41
+          simp [escapePdfString, Syntax.readLit, Syntax.consOut, Syntax.isOctal, ih]
+        · by_cases h13 : x = 13
+          · subst h13
+            simp [escapePdfString, Syntax.readLit, Syntax.consOut, Syntax.isOctal, ih]
+          · simp [escapePdfString, Syntax.readLit, Syntax.consOut, h92, h40, h41, h13, ih]
+
+/-- before the CR repair: exact for every byte string without CR -/
+theorem spec_readLit_escape_rawCR (s rest : List Nat) (hs : NoCR s = true) :
+    Syntax.readLit 0 .normal (escapePdfStringRawCR s ++ 41 :: rest) = some (s, rest) := by
+  induction s with
+  | nil => simp [escapePdfStringRawCR, Syntax.readLit]
   | cons x xs ih =>
     unfold NoCR at hs ih
     rw [allB_cons] at hs
     have hx : x ≠ 13 := by simpa using hs.1
     by_cases h92 : x = 92
     · subst h92
-      simp [escapePdfString, Syntax.readLit, Syntax.consOut, Syntax.isOctal, ih hs.2]
+      simp [escapePdfStringRawCR, Syntax.readLit, Syntax.consOut, Syntax.isOctal, ih hs.2]
     · by_cases h40 : x = 40
       · subst h40
-        simp [escapePdfString, Syntax.readLit, Syntax.consOut, Syntax.isOctal, ih hs.2]
+        simp [escapePdfStringRawCR, Syntax.readLit, Syntax.consOut, Syntax.isOctal, ih hs.2]
       · by_cases h41 : x = 41
         · subst h41
-          simp [escapePdfString, Syntax.readLit, Syntax.consOut, Syntax.isOctal, ih hs.2]
-        · simp [escapePdfString, Syntax.readLit, Syntax.consOut, h92, h40, h41, hx, ih hs.2]
+          simp [escapePdfStringRawCR, Syntax.readLit, Syntax.consOut, Syntax.isOctal, ih hs.2]
+        · simp [escapePdfStringRawCR, Syntax.readLit, Syntax.consOut, h92, h40, h41, hx, ih hs.2]
 
 /-! ### hexadecimal strings -/
 
